@@ -64,7 +64,7 @@ def zst_elems(t):
     return bool(hit)
 
 
-def mutations(rng, b, tier):
+def mutations(rng, b, tier, has_char=False):
     out = []
     n = len(b)
     if n == 0:
@@ -91,6 +91,14 @@ def mutations(rng, b, tier):
     cap = 50 if tier == "quick" else 400
     if len(out) > cap:
         out = rng.sample(out, cap)
+    if has_char and n <= 64:
+        # boundary scalar values of char at every 4-byte window (not subject to the cap): both ends of the surrogate
+        # gap, the last scalar, the first invalid one
+        for i in range(0, n - 3):
+            for sc in (0xD7FF, 0xD800, 0xDBFF, 0xDC00, 0xDFFE, 0xDFFF, 0xE000, 0x10FFFF, 0x110000, 0xFFFFFFFF):
+                c = bytearray(b)
+                c[i:i + 4] = sc.to_bytes(4, "little")
+                out.append(bytes(c))
     return out
 
 
@@ -125,6 +133,12 @@ def run(chk, tier, seed):
     roots = [(i, r) for i, r in D.roots_for(U, exclude=("k13bulk", "kf", "arrayvec")) if not niche_under_bulk(r["ty"]) and not zst_elems(r["ty"])]
     pick = rng.sample(roots, min(len(roots), 45 if tier == "quick" else 200))
     pick += [(i, r) for i, r in enumerate(U["roots"]) if "arrayvec" in r["tags"]]
+    # every fixed root that holds a char outside a bulk-read position is always in (scalar-value validation)
+    def has_char(t):
+        hit = []
+        TG.walk_types(t, lambda u: hit.append(1) if u["k"] == "char" else None)
+        return bool(hit)
+    pick += [(i, r) for i, r in roots if "fixed" in r["tags"] and has_char(r["ty"]) and (i, r) not in pick][:12]
     lines = []
     for ri, r in pick:
         lines.append("v%d ty_save %d bare %d 0" % (ri, ri, r.get("curver", 0)))
@@ -143,7 +157,7 @@ def run(chk, tier, seed):
         if not o.startswith("OK "):
             continue
         b = bytes.fromhex(o.split(" ")[1].replace("-", ""))
-        for mb in mutations(rng, b, tier):
+        for mb in mutations(rng, b, tier, has_char=(r["ty"]["k"] != "arrayvec" and has_char(r["ty"]))):
             n += 1
             lines2.append("m%d ty_load %d bare %d %s" % (n, ri, r.get("curver", 0), mb.hex() or "-"))
             meta["m%d" % n] = {"root": ri, "val": 0, "version": r.get("curver", 0), "bytes": mb, "n": n, "container": "bare"}
